@@ -107,7 +107,23 @@ func (r *Registry) LineNumber(templateName string, node ast.Node) int {
 		log.Println("template not found:", templateName)
 		return 0
 	}
-	return 1 + strings.Count(src[:node.Position()], "\n")
+	return 1 + strings.Count(src[:sourceOffset(src, node)], "\n")
+}
+
+// sourceOffset returns the node's position clamped to the source text, so that
+// position lookups made while reporting an error can never panic themselves.
+func sourceOffset(src string, node ast.Node) int {
+	if node == nil {
+		return 0
+	}
+	var pos = int(node.Position())
+	if pos < 0 {
+		return 0
+	}
+	if pos > len(src) {
+		return len(src)
+	}
+	return pos
 }
 
 // ColNumber computes the column number in the relevant line of input source for the given node
@@ -118,7 +134,8 @@ func (r *Registry) ColNumber(templateName string, node ast.Node) int {
 		log.Println("template not found:", templateName)
 		return 0
 	}
-	return 1 + int(node.Position()) - strings.LastIndex(src[:node.Position()], "\n")
+	var pos = sourceOffset(src, node)
+	return 1 + pos - strings.LastIndex(src[:pos], "\n")
 }
 
 // Filename identifies the filename containing the specified template
